@@ -61,14 +61,25 @@ func checkColdExportNetwork(scratch string, trials int) (string, string, int) {
 			}
 		}
 		var buses []*a.Bus
+		// all buses SHARE one custom CAN-ID builder and carry many messages: the CAN-IDs in the files
+		// must be those ExportBus computes, whatever the workers do concurrently
+		shared := a.NewCANIDBuilder("shared builder").UseNodeID(0, 5).UseMessageID(5, 10).UseMessagePriority(20)
 		for bi := 0; bi < 6; bi++ {
 			bus := a.NewBus(fmt.Sprintf("b%d", bi))
+			bus.SetCANIDBuilder(shared)
 			node := a.NewNode(fmt.Sprintf("n%d", bi), a.NodeID(bi+1), 1)
 			ni, _ := node.GetInterface(0)
 			msg := a.NewMessage(fmt.Sprintf("m%d", bi), a.MessageID(bi+1), 8)
 			sig, err := a.NewEnumSignal(fmt.Sprintf("s%d", bi), enum)
 			if err != nil || bus.AddNodeInterface(ni) != nil || ni.AddSentMessage(msg) != nil || msg.AppendSignal(sig) != nil || net.AddBus(bus) != nil {
 				return "", "", n
+			}
+			for k := 0; k < 80; k++ {
+				extra := a.NewMessage(fmt.Sprintf("x%d_%d", bi, k), a.MessageID(100+k*7+bi), 1+k%8)
+				extra.SetPriority(a.MessagePriority(k % 4))
+				if ni.AddSentMessage(extra) != nil {
+					return "", "", n
+				}
 			}
 			buses = append(buses, bus)
 		}
@@ -102,7 +113,7 @@ func checkColdExportNetwork(scratch string, trials int) (string, string, int) {
 				if len(q) > 120 {
 					q = q[:120]
 				}
-				return "exportnetwork-cold-differs-" + dbcSection(p), fmt.Sprintf("GOMAXPROCS=%d: ExportNetwork as the first read of a fresh network (6 buses sharing one enum of %d values): file of bus %d differs from ExportBus: %q vs %q (%v)", procs, nv, bi, p, q, rerr), n
+				return "exportnetwork-cold-differs-" + dbcSection(p), fmt.Sprintf("GOMAXPROCS=%d: ExportNetwork as the first read of a fresh network (6 buses sharing one enum of %d values and one CAN-ID builder, 81 messages each): file of bus %d differs from ExportBus: %q vs %q (%v)", procs, nv, bi, p, q, rerr), n
 			}
 		}
 		_ = buses
